@@ -302,6 +302,7 @@ static std::string step(const Toks& t)
 				if (k <= 0) return "err feed-short";
 				sent += k;
 			}
+			shutdown(st.feedfd, SHUT_WR); // everything is in the socket buffer: a read past the end returns instead of blocking
 			st.rs = new Socket(fds[1]);
 			if (!d) st.rs->setEndian(e);
 			st.re = d ? ENDIAN_NATIVE : e;
@@ -375,6 +376,7 @@ static std::string step(const Toks& t)
 		if (st.kind == K_FILE) *st.rf >> x;
 		else *st.rs >> x;
 		st.pos += 4 + n;
+		if (x.length() < 0 || x.length() > n) return "err string-of-length-" + str(x.length()) + "-for-prefix-" + str(n);
 		return str(x.length()) + " " + hex(*x, x.length());
 	}
 	return "bad-op";
